@@ -25,7 +25,7 @@ for pid in all_ids:
         "evidence_file": "/verif/evidence/%s.json" % pid,
         "replay_cmd_template": "./check replay {path}",
         "engine": c['engine'],
-        "level_claimed": {"category": "model_checking", "text": c['text'] + " The exact bounds of the run are in the evidence file (coverage.bounds); besides the alphabet-bounded part the check has a scale part (long / large / many structured inputs, magnitude ladders, see DESIGN.md 11.6). Detection was exercised with the seeded changes under /verif/seeded that break this property (DESIGN.md 11.5).", "design_ref": c['ref'] + "; sections 11.2, 11.5, 11.6"},
+        "level_claimed": {"category": "model_checking", "text": c['text'] + " The exact bounds of the run are in the evidence file (coverage.bounds); besides the alphabet-bounded part the check has a scale part (long / large / many structured inputs, magnitude ladders, character sweeps, typed-looking values, multi-byte straddles: DESIGN.md 11.6-11.8). Detection was exercised with the seeded changes under /verif/seeded that break this property (DESIGN.md 11.5).", "design_ref": c['ref'] + "; sections 11.2, 11.5-11.8"},
         "level_note": c['note'],
         "technique": c['technique'],
     })
